@@ -60,7 +60,7 @@ CLAIMS = {
          "Known finding F-C16-H: %H of entries below a starting point spelled with a trailing slash lacks the slash. What write! emits is produced by fmt_model.py (port of core::fmt::write incl. Formatter::pad over the template bytes in the MIR); std::path operations on symbolic names are structural models (components, parent, file_name, ancestors, strip_prefix). %l, time directives (chrono), %u %g (FFI), %F %S %b %k %D, -fprintf's file handling, width on the record directives (Kani side) are outside; %Y under -L is outside (design decision recorded in DESIGN.md).",
          "4 C16"),
  "C18": ("The operand scan of parse_args for every pair of tokens from a 12-word vocabulary (follow flags, --, operands incl. '-', './a/', expression starters): operands in order, spelled as given, default '.'; do_find walks <=3 starting points in order, isolates failures, stops after quit.",
-         "mirsym: the real parse_args + do_find + expression parser on every command line of <= 3 tokens over a 15-word vocabulary (options, --, operands incl. '-', './b/', '..', expression starters) with a symbolic per-starting-point status and quit: operands, order, spelling, default '.', follow mode, status accumulation, stop after quit. Kani: build_top_level_matcher and process_dir are scripts in these harnesses; -files0-from (file/stdin reads) is not covered; missing starting points are walkdir's error path (abstracted as an error step).",
+         "mirsym: the real parse_args + do_find + expression parser on every command line of <= 3 tokens over a 15-word vocabulary (options, --, operands incl. '-', './b/', '..', expression starters) with a symbolic per-starting-point status and quit: operands, order, spelling, default '.', follow mode, status accumulation, stop after quit. Kani: build_top_level_matcher and process_dir are scripts in these harnesses; -files0-from FILE: mirsym c18_files0 runs parse_files0_args from MIR over six NUL-separated name lists and a missing file (names in order, spelled as given, empty names skipped and diagnosed, no combination with file operands); -files0-from - (stdin) is not covered; missing starting points are walkdir's error path (abstracted as an error step).",
          "4 C18"),
  "C19": ("Classification of a child's fate by execute() for every wait status / spawn errno; exit-code mapping of xargs_main for every result variant; sticky failure; and, in the process_input protocol harness, every sequence of <=5 outcomes: stops at once on 255/signal/not-found, continues past 1..125.",
          "Command::status replaced by a symbolic outcome under the Linux wait-status encoding; do_xargs replaced by a stub in the mapping harness.",
